@@ -821,37 +821,25 @@ pub fn run(ctx: &mut Ctx) {
     ALLOW_EMPTY_TUPLE_VARIANT.store(!f1_open, Ordering::Relaxed);
     let n = ctx.tier.pick(120_000, 3_000_000);
 
-    // explicit witnesses: one value per variant form at depth >= 2 and the numeric extremes
-    {
-        let fixed: Vec<Vec<u32>> = vec![vec![], vec![u32::MAX; 48], vec![0x8000_0000; 48], (0..48).map(|i| i * 0x0517_cc1b).collect()];
-        for (i, ch) in fixed.iter().enumerate() {
-            let mut s = vcore::src::VecSrc::new(ch);
-            let c = round_trip::<T1>(&mut s, "T1", 4);
-            if ctx.check_case("witness", c, serde_json::json!({"vector": i})) {
+    macro_rules! family_stream {
+        ($name:expr, $t:ty, $label:expr, $cases:expr, $len:expr) => {
+            ctx.stream($name, $cases, $len, |s| round_trip::<$t>(s, $label, 4));
+            if ctx.violations() > 0 {
                 return;
             }
-            let mut s = vcore::src::VecSrc::new(ch);
-            let c = round_trip::<Tree>(&mut s, "Tree", 4);
-            if ctx.check_case("witness", c, serde_json::json!({"vector": i})) {
-                return;
-            }
-        }
+        };
     }
-
-    ctx.stream("t1", n, 160, |s| round_trip::<T1>(s, "T1", 4));
-    ctx.stream("t2", n, 160, |s| round_trip::<T2>(s, "T2", 4));
-    ctx.stream("t3", n, 160, |s| round_trip::<T3>(s, "T3", 4));
-    ctx.stream("t4", n, 160, |s| round_trip::<T4>(s, "T4", 4));
-    ctx.stream("t5", n, 160, |s| round_trip::<T5>(s, "T5", 4));
-    ctx.stream("t6", n, 160, |s| round_trip::<T6>(s, "T6", 4));
-    ctx.stream("t7", n, 160, |s| round_trip::<T7>(s, "T7", 4));
-    ctx.stream("tree", n, 200, |s| round_trip::<Tree>(s, "Tree", 4));
-    ctx.stream("attrs", n / 2, 200, |s| round_trip::<Attrs>(s, "Attrs", 4));
+    family_stream!("t1", T1, "T1", n, 160);
+    family_stream!("t2", T2, "T2", n, 160);
+    family_stream!("t3", T3, "T3", n, 160);
+    family_stream!("t4", T4, "T4", n, 160);
+    family_stream!("t5", T5, "T5", n, 160);
+    family_stream!("t6", T6, "T6", n, 160);
+    family_stream!("t7", T7, "T7", n, 160);
+    family_stream!("tree", Tree, "Tree", n, 200);
+    family_stream!("attrs", Attrs, "Attrs", n / 2, 200);
     if f1_open {
         ctx.excluded(F1);
-    }
-    if ctx.violations() > 0 {
-        return;
     }
 
     // probe of C16-F1: the smallest witness, then the family with the construct enabled
